@@ -636,9 +636,13 @@ def fold_bitset_parser(ctx, key, sty):
     # the text is read token by token only (an early answer that looks at the whole text, e.g. its length, is not a
     # function of the tokens)
     kfi_, _st = ctx.method("u32", "from_index", PC)
-    so_ = ctx.summ(key, [("v", atom("text", "str"))], sty, opaque={kfi_}) if False else None
-    misuse = text_misuse([ret], "fn:never")
-    misuse = [m_ for m_ in misuse if not m_.startswith("a token flows")]     # (the card parser is inlined here)
+    misuse = [m_ for m_ in text_misuse([ret], "fn:never") if not m_.startswith("a token flows")]     # (the card parser is inlined in this summary)
+    # what is done with each token: a second, short unrolling with the card parser left uninterpreted — a token may
+    # only be handed to it (no test on its length or characters that decides whether it counts)
+    ex2 = Exec(pdb, opaque={kfi_})
+    ex2.max_tokens = 3
+    ret2, _ = ex2.summarise(key, [atom("text", "str")], sty, State())
+    misuse += [m_ for m_ in text_misuse([ret2] + [c for o in ex2.obligations if not (o.cond[0] == "c" and o.cond[1]) for c in (o.cond,) + tuple(o.pc)], "fn:" + kfi_)]
     if misuse:
         rep.ob("C12.bitset-parser" if rep.prop == "C12" else "C15.from_text", "reads", False, "BinaryCard::from_index reads the text other than token by token (%s)" % "; ".join(misuse[:3]), pdb.where(key))
     return ex, NTOK, nb
@@ -695,6 +699,24 @@ def check_C12(ctx):
                     pass  # reads through sub-slices: decided by the fold and the panic-site check below
                 elif x[1].startswith(("has_", "token", "ascii_", "str_", "char_", "byte_")):
                     other.add(x[1])
+        # the token's byte length compared with constants (a guard such as `len() < 2`): allowed — the constants join the
+        # strings the fold uses (lengths just below, at and above each of them); any other use of the length is not
+        len_consts = set()
+        len_other = False
+        for root in [dag_a] + [c for o in s_.obligations for c in (o.cond,) + tuple(o.pc)]:
+            parents_ = {}
+            for x in walk(root):
+                for ch in children(x):
+                    parents_.setdefault(id(ch), []).append(x)
+            for x in walk(root):
+                if x[0] == "call" and x[1] == "str_len":
+                    for p_ in parents_.get(id(x), []):
+                        if p_[0] == "bin" and p_[1] in ("Eq", "Ne", "Lt", "Le", "Gt", "Ge") and (p_[3] if p_[2] is x else p_[2])[0] == "c":
+                            len_consts.add((p_[3] if p_[2] is x else p_[2])[1])
+                        else:
+                            len_other = True
+        if len_consts and not len_other and max(len_consts) <= 64:
+            other.discard("str_len")
         len_in_sites = False
         for o in s_.obligations:
             for x in walk(o.cond):
@@ -705,6 +727,13 @@ def check_C12(ctx):
         rep.ob("C12.token-reads", "positions", positions <= {0, 1}, "from_index reads character positions %s (the tail must not matter)" % sorted(positions, key=str), pdb.where(key))
         rep.ob("C12.token-reads", "operations", not other, "from_index uses text operations other than reading characters in order: %s" % sorted(other), pdb.where(key))
         strs = [""] + [a for a in alphabet_t] + [a + b for a in alphabet_t for b in alphabet_t] + [a + b + "zz♠" for a in "Ak9x" for b in "S♥dx"] + [a + b + c for a in "1Ak" for b in "0S♠" for c in "S♠d0x"]
+        for lc in sorted(len_consts):
+            # strings whose byte length is just below / at / above each constant the length is compared with
+            for tgt in (lc - 1, lc, lc + 1):
+                for head in ("", "A", "AS", "A♠", "k♥", "♠", "xx"):
+                    hb = len(head.encode("utf-8"))
+                    if tgt >= hb:
+                        strs.append(head + "z" * (tgt - hb))
         bad = None
         nb = 0
         for t in strs:
